@@ -46,6 +46,14 @@ Fixpoint filter_res {A : Type} (p : A -> res bool) (l : list A) : res (list A) :
   | a :: r => bind (p a) (fun c => bind (filter_res p r) (fun xs => Ok (if c then a :: xs else xs)))
   end.
 
+(* [f(x) for x in l if c(x)] / {k(x): v(x) for x in l if c(x)} with c AND f raising: evaluated item by item, c(x1), f(x1), c(x2), ... *)
+Fixpoint comp_res {A B : Type} (c : A -> res bool) (f : A -> res B) (l : list A) : res (list B) :=
+  match l with
+  | [] => Ok []
+  | a :: r => bind (c a) (fun t => if t then bind (f a) (fun b => bind (comp_res c f r) (fun bs => Ok (b :: bs)))
+                                   else comp_res c f r)
+  end.
+
 (* l.index(x): ValueError when absent *)
 Definition list_index (l : list label) (x : label) : res nat := if lmem x l then Ok (lindex l x) else Err EValue.
 
@@ -76,11 +84,33 @@ Definition dict_keys {V : Type} (d : list (label * V)) : list label := map fst d
 Definition dict_values {V : Type} (d : list (label * V)) : list V := map snd d.       (* .values() *)
 Definition dict_mem {V : Type} (k : label) (d : list (label * V)) : bool := lmem k (map fst d).   (* k in d *)
 
+(* d[k] = v on a dict that was created by {} / a dict comprehension in the same function (its keys are unique): an existing key
+   keeps its position and gets the new value, a new key is appended *)
+Fixpoint dict_set {V : Type} (d : list (label * V)) (k : label) (v : V) : list (label * V) :=
+  match d with
+  | [] => [(k, v)]
+  | (k', v') :: r => if label_eqb k' k then (k', v) :: r else (k', v') :: dict_set r k v
+  end.
+
+(* {k: v for ...}: the items are stored one after the other (a repeated key keeps its first position and gets the last value) *)
+Definition dict_of_items {V : Type} (l : list (label * V)) : list (label * V) :=
+  fold_left (fun d kv => dict_set d (fst kv) (snd kv)) l [].
+
+(* set(l) of ints, only observed through len *)
+Definition natset_of_list (l : list nat) : list nat := l.
+Definition natset_len (s : list nat) : nat := length (nodup Nat.eq_dec s).
+
 (* ---------- LabelMapping beyond Model/NetworkPrims.v ---------- *)
+(* The class LabelMapping and label_mapping.filter are translated (Gen/MatrixGen.v, module py_label_mapping_m) over the dict
+   of the object, an association list label -> index ([fmapping]).  The other modules see a LabelMapping that a mapper built
+   (LabelMapping({k: v for v, k in enumerate(L)}), [enum_mapping L]) as the key list L itself ([mapping]); [lm_dict] is the
+   dict of that object, and Theory/MatrixGenThm.v (section LabelMappingClass) proves that every translated member, applied
+   to [lm_dict m], is the primitive [mapping_*] / [fmapping_*] used for it (for keys without duplicates). *)
+Definition lm_dict (m : mapping) : list (label * nat) := combine m (seq 0 (length m)).
 Definition mapping_values (m : mapping) : list nat := seq 0 (length m).      (* m.values of an enumerate-mapping *)
 Definition mapping_index (m : mapping) (k : label) : nat := lindex m k.      (* m[k], m(k) for a key k taken from m itself *)
 (* label_mapping.filter(m, p): the sub-dict, each key keeping its ORIGINAL index *)
-Definition fmapping := list (label * nat).
+Definition fmapping := list (label * nat).       (* a LabelMapping object: its dict *)
 Definition mapping_filter (m : mapping) (p : label -> bool) : fmapping :=
   filter (fun kv => p (fst kv)) (combine m (seq 0 (length m))).
 Definition mapping_filter_res (m : mapping) (p : label -> res bool) : res fmapping :=
